@@ -131,6 +131,15 @@ func phaseA(c *core.Ctx, kind string) {
 		if c.R.Chance(1, 8) {
 			c.Begin(kind, "Clear")
 			x.C.Clear()
+		} else if c.R.Chance(1, 16) && kind != "BinaryHeap" && kind != "PriorityQueue" {
+			// more than a thousand elements at the time of the reads (code paths
+			// chosen by size: sentinel scans, chunked copies, parallel helpers)
+			n := c.R.Range(1100, 1700)
+			c.Begin(kind, "grow-to", n)
+			for i := 0; i < n; i++ {
+				x.PutWide(c.R)
+			}
+			c.Count("phaseA:big-containers", 1)
 		}
 		return x
 	}
@@ -759,6 +768,7 @@ func init() {
 		Floors: func(tier string, m map[string]int64) []string {
 			f := &floorCheck{m: m}
 			f.atLeast("phaseA:containers", 500)
+			f.atLeast("phaseA:big-containers", 60)
 			f.atLeast("phaseA:overlapping-call-pairs", 20000)
 			f.atLeast("phaseB:histories", 200)
 			f.atLeast("phaseB:porcupine-ok", 200)
